@@ -205,6 +205,19 @@ CLAIMS = {
   "technique": "static analysis: who-may-write rule, sibling agreement, dominance/order rules on clang CFG",
   "design_ref": "DESIGN.md section 4, C02",
  },
+ "C03": {
+  "text": "Dispatch-safety clauses decided in the host configuration and (thorough) in six feature subsets: instruction-set specific "
+          "routines run only under the matching selector, the run-time CPU test, or inside self-test helpers; a selector is stored only "
+          "behind the run-time test of every feature its unit is compiled for and a passing self-test whose call tree contains the "
+          "routine being enabled; an uninitialised selector defaults to the portable path; thresholds imply the accelerated routines' "
+          "preconditions; ISA flags appear only on accelerated units; sibling dispatchers agree on the selector and the accelerated "
+          "branch excludes the portable one.",
+  "note": "NOT decided: bit-equality of accelerated and portable results for all inputs -- delegated to the library's own run-time "
+          "self-tests, whose wiring is what G2 verifies (a wrong constant in an accelerated transform is caught there and falls back, "
+          "so the property still holds; no table rule is armed for those units). ARM units cannot be parsed on this host.",
+  "technique": "static analysis: control-dependence (guarded dispatch), dominance of validation, call-tree membership, Makefile flag audit",
+  "design_ref": "DESIGN.md section 4, C03",
+ },
 }
 
 NOT_APPLICABLE = {
